@@ -147,7 +147,8 @@ GdFirstDiff(a, b) == LET n == IF Len(a) < Len(b) THEN Len(a) ELSE Len(b)
 GdProg(r) == [j \in 1..Len(r.ops) |-> GdByText[r.ops[j]]]
 GdIsAlt(r, alt) == LET e == GdRunAlt(GdProg(r), alt) IN ~e.und /\ r.outcome = e.outcome /\ r.out = e.out
 \* (single deviations first, then their combinations: a program may run into two of them)
-GdAlts == << <<{"replace"}, "assignment-replaces-storage">>, <<{"palost"}, "write-through-array-pointer-lost">>,
+GdAlts == << <<{"cladr"}, "address-of-part-of-captured-variable-in-closure-is-of-a-copy">>,
+             <<{"replace"}, "assignment-replaces-storage">>, <<{"palost"}, "write-through-array-pointer-lost">>,
              <<{"rangelive"}, "range-over-array-not-a-copy">>,
              <<{"replace", "palost"}, "assignment-replaces-storage+write-through-array-pointer-lost">>,
              <<{"replace", "rangelive"}, "assignment-replaces-storage+range-over-array-not-a-copy">>,
